@@ -315,7 +315,7 @@ func runC08(c *Ctx) {
 						continue
 					}
 					o, s := ownerOfFieldBase(fa.X.Type())
-					if (o != "blockchain.Transaction" && o != "blockchain.BlockHeader") || s.Field(fa.Field).Name() != "ID" {
+					if (o != "blockchain.Transaction" && o != "blockchain.BlockHeader") || fieldNameOf(s.Field(fa.Field)) != "ID" {
 						continue
 					}
 					t := T(st.Val)
@@ -403,7 +403,7 @@ func runC08(c *Ctx) {
 						if fa, ok := st.Addr.(*ssa.FieldAddr); ok {
 							o, s := ownerOfFieldBase(fa.X.Type())
 							if o == pr[0] {
-								assigned[s.Field(fa.Field).Name()] = T(st.Val).String()
+								assigned[fieldNameOf(s.Field(fa.Field))] = T(st.Val).String()
 							}
 						}
 					}
@@ -452,7 +452,7 @@ func runC08(c *Ctx) {
 					if st, ok := in.(*ssa.Store); ok {
 						if fa, ok := st.Addr.(*ssa.FieldAddr); ok {
 							o, s := ownerOfFieldBase(fa.X.Type())
-							if o == "codec.Reader" && s.Field(fa.Field).Name() == "end" {
+							if o == "codec.Reader" && fieldNameOf(s.Field(fa.Field)) == "end" {
 								t := T(st.Val).String()
 								bounded = strings.Contains(t, ".index + ") && strings.Contains(t, "readUInt")
 							}
